@@ -654,6 +654,14 @@ func (c11) Exec(c string) (string, []Fail) {
 	if len(f) == 0 {
 		return "bad-op", nil
 	}
+	if os.Getenv("C11SLOW") != "" { // developer aid: cases taking more than half a second
+		t0 := time.Now()
+		defer func() {
+			if d := time.Since(t0); d > 500*time.Millisecond {
+				fmt.Fprintf(os.Stderr, "slow %v %.160s\n", d, c)
+			}
+		}()
+	}
 	stat("op:" + f[0])
 	dbg := func() {
 		if os.Getenv("C11DEBUG") != "" {
@@ -942,6 +950,81 @@ func (c11) Exec(c string) (string, []Fail) {
 		}
 		// (a circular template shorter than a primer used to be printed `unmodelled`: since fix c69892e the C encoder copies
 		// min(length, 64) symbols behind a circular sequence, which is what the model's seqData does; compared like the rest)
+		return res, fails
+
+	case f[0] == "seqbuf" && len(f) == 3:
+		// seqbuf <circ> <tpl>[,<tpl>...]: the C structure recycled by _PCRSlice from one template to the next
+		if f[1] != "0" && f[1] != "1" {
+			return "bad-op", nil
+		}
+		circ := f[1] == "1"
+		var tpls [][]byte
+		for _, h := range strings.Split(f[2], ",") {
+			t, ok := unhx(h)
+			if !ok {
+				return "bad-op", nil
+			}
+			tpls = append(tpls, t)
+		}
+		type snap struct {
+			seqlen, circular, datsiz int
+			data                     []byte
+		}
+		var snaps []snap
+		res := guardT(20*time.Second, func() string {
+			defer dbg()
+			var aseq obiapat.ApatSequence
+			parts := make([]string, len(tpls))
+			for i, t := range tpls {
+				bs := obiseq.NewBioSequence("t"+strconv.Itoa(i), t, "")
+				var err error
+				if i == 0 {
+					aseq, err = obiapat.MakeApatSequence(bs, circ)
+				} else {
+					aseq, err = obiapat.MakeApatSequence(bs, circ, aseq)
+				}
+				if err != nil {
+					return "error"
+				}
+				var sn snap
+				sn.seqlen, sn.circular, sn.datsiz, sn.data = obiapat.VerifSeqBuffer(aseq)
+				snaps = append(snaps, sn)
+				parts[i] = fmt.Sprintf("%d/%d/%d/%s", sn.seqlen, sn.circular, sn.datsiz, hx(sn.data))
+			}
+			return strings.Join(parts, "|")
+		})
+		if res == "fatal" || res == "panic" || res == "hang" || res == "error" {
+			fail("seqbuf."+res, "MakeApatSequence chain ends in %s", res)
+			return res, fails
+		}
+		// oracle (independent of the model): what the matcher may read — the first seqlen + circular codes — is the
+		// current template followed by its first min(len, 64) symbols, whatever the buffer held before
+		for i, t := range tpls {
+			low := c11Lower(t)
+			sn := snaps[i]
+			wantC := 0
+			if circ {
+				wantC = min(len(low), c11MaxPatLen)
+			}
+			code := func(c byte) byte {
+				if c >= 'a' && c <= 'z' {
+					return c - 'a'
+				}
+				return 25
+			}
+			ok := sn.seqlen == len(low) && sn.circular == wantC && sn.datsiz >= sn.seqlen+sn.circular && len(sn.data) >= sn.seqlen+sn.circular
+			for p := 0; ok && p < sn.seqlen+sn.circular; p++ {
+				if sn.data[p] != code(low[p%max(len(low), 1)]) {
+					ok = false
+				}
+			}
+			if sn.datsiz > sn.seqlen+sn.circular {
+				stat("seqbuf:stale-tail")
+			}
+			if !ok {
+				fail("seqbuf.valid-part", "template %d (%d symbols): seqlen=%d circular=%d datsiz=%d, the first seqlen+circular codes are not the template followed by its first %d symbols", i, len(low), sn.seqlen, sn.circular, sn.datsiz, wantC)
+			}
+		}
 		return res, fails
 
 	case f[0] == "frag" && len(f) == 12:
@@ -1689,10 +1772,13 @@ func (c11) Gen(rng *rand.Rand, tier string, emit func(string)) {
 					stat("gen:short-circle")
 				}
 			}
-			if bigBudget {
+			if bigBudget || len(F) <= o.ef || len(R) <= o.er { // every offset is a site: L x L pairs, keep the template short
 				L = min(L, 12+rng.Intn(20))
 				if o.circ {
 					L = 64 + rng.Intn(8)
+					if rng.Intn(3) == 0 {
+						L = 1 + rng.Intn(40)
+					}
 				}
 			}
 			alpha := "acgt"
@@ -1989,6 +2075,22 @@ func (c11) Gen(rng *rand.Rand, tier string, emit func(string)) {
 	for k := 0; k < nfc; k++ {
 		fl, rl := 4+rng.Intn(5), 4+rng.Intn(5)
 		emit(c11FragClipLine(rng, c11RandPrimer(rng, fl, 0), c11RandPrimer(rng, rl, 0), rng.Intn(2), 4+rng.Intn(12), 1+rng.Intn(6), rng.Intn(4) == 0))
+	}
+	// the C structure recycled from one template to the next: chains long / short / empty / around 64 symbols
+	emit("seqbuf 1 " + hx(S(rep("acgt", 20))) + "," + hx(S("acg")) + ",-," + hx(S(rep("t", 64))) + "," + hx(S(rep("g", 63))) + "," + hx(S(rep("ac", 50))))
+	emit("seqbuf 0 " + hx(S(rep("acgt", 20))) + "," + hx(S("ACGn-")) + ",-," + hx(S(rep("t", 80))) + "," + hx(S(rep("g", 80))))
+	nsb := 40
+	if tier == "thorough" {
+		nsb = 150
+	}
+	for k := 0; k < nsb; k++ {
+		n := 2 + rng.Intn(5)
+		hs := make([]string, n)
+		for q := range hs {
+			L := []int{0, 1, 5, 30, 63, 64, 65, 100, 150}[rng.Intn(9)] + rng.Intn(3)
+			hs[q] = hx(c11RandSeq(rng, L, "acgtnACGT-"))
+		}
+		emit(fmt.Sprintf("seqbuf %d %s", rng.Intn(2), strings.Join(hs, ",")))
 	}
 	nc := 3
 	if tier == "thorough" {
